@@ -195,7 +195,7 @@ impl Report {
     }
     // minimum-observation rule
     let mut inconclusive = acc.inconclusive.clone();
-    for (k, min) in &self.required {
+    for (k, min) in self.required.iter().filter(|_| self.args.replay.is_none()) {
       let got = acc.counters.get(k).copied().unwrap_or(0);
       if got < *min {
         inconclusive.push(format!("counter {k}={got} below required {min}"));
